@@ -529,7 +529,15 @@ fn edit_case(ctx: &mut Ctx, a: &Val) -> Case {
         }
     };
     match ctx.rng.below(13) {
-        0 => Case::new(40).arg(ctx.rng.below(a.len.max(1) as u64) as u128).arg(ctx.rng.below(2) as u128).val(a.clone()),
+        0 => {
+            // in-range indices only: what a release build does with an out-of-range index is not
+            // prescribed, and a history must not continue from such a state
+            if a.len == 0 {
+                Case::new(42).val(a.clone())
+            } else {
+                Case::new(40).arg(ctx.rng.below(a.len as u64) as u128).arg(ctx.rng.below(2) as u128).val(a.clone())
+            }
+        }
         1 => {
             if room == 0 && !over {
                 Case::new(42).val(a.clone())
